@@ -1,10 +1,14 @@
 #!/bin/bash
-# ./seedcheck.sh <ID> <A|B> [extra check ids...] : applies a seeded change to /repo, runs relic's own
-# suite and the property's quick check (plus any extra checks), and always restores /repo.
+# ./seedcheck.sh <ID> <A|B> [extra check ids...]
+# Applies the seeded change /verif/seeded/<ID>-<X>/patch.diff to /repo (git apply), runs the
+# property's quick check (plus any extra checks named), and always restores /repo
+# (git checkout -- . ; git clean) on the way out. SUITE=1 also runs relic's own suite first
+# (seeded/confirm.sh already did that in a scratch worktree).
+# One line per check is appended to seeded/<ID>-<X>/checks.txt.
 set -u
 ID=$1; X=$2; shift 2
-P=/tmp/seed/$ID-out/$X/patch.diff
-[ -f "$P" ] || P=/verif/seeded/$ID-$X/patch.diff
+P=/verif/seeded/$ID-$X/patch.diff
+[ -f "$P" ] || { echo "no such seeded change $ID-$X"; exit 2; }
 export GOFLAGS=-mod=mod GOPROXY=off GOSUMDB=off GOTOOLCHAIN=local
 cd /repo
 if [ -n "$(git status --porcelain)" ]; then echo "REPO-DIRTY: refusing"; exit 2; fi
@@ -12,11 +16,17 @@ restore(){ git -C /repo checkout -q -- . ; git -C /repo clean -fdq; }
 trap restore EXIT
 if ! git apply --check "$P" 2>/tmp/seedcheck.err; then echo "PATCH-DOES-NOT-APPLY $(head -2 /tmp/seedcheck.err)"; exit 3; fi
 git apply "$P"
-echo "files: $(git status --porcelain | tr '\n' ' ')"
-if go build ./... >/tmp/seedcheck.build 2>&1 && go test -vet=off -count=1 ./... >/tmp/seedcheck.test 2>&1; then echo "relic-suite: PASS"; else echo "relic-suite: FAIL"; tail -5 /tmp/seedcheck.build /tmp/seedcheck.test; fi
+echo "== $ID-$X files: $(git status --porcelain | tr '\n' ' ')"
+if [ -n "${SUITE:-}" ]; then
+  if go build ./... >/tmp/seedcheck.build 2>&1 && go test -vet=off -count=1 ./... >/tmp/seedcheck.test 2>&1; then echo "relic-suite: PASS"; else echo "relic-suite: FAIL"; tail -5 /tmp/seedcheck.build /tmp/seedcheck.test; fi
+fi
 cd /verif
+OUT=/verif/seeded/$ID-$X/checks.txt
 for c in $ID "$@"; do
-  out=$(./check $c quick 2>&1); rc=$?
-  echo "check $c rc=$rc :: $(echo "$out" | grep -E "^$c quick:" | tail -1 | cut -c1-150)"
-  echo "$out" | grep -E "^VIOLATION|^BUILD|^HARNESS" | sed 's/replay=[^ ]* //' | cut -c1-240 | head -5
+  out=$(./check $c ${TIER:-quick} 2>&1); rc=$?
+  line="check $c ${TIER:-quick} rc=$rc :: $(echo "$out" | grep -E "^$c (quick|thorough):" | tail -1 | cut -c1-150)"
+  echo "$line"
+  viol=$(echo "$out" | grep -E "^VIOLATION|^BUILD|^HARNESS" | sed 's/replay=[^ ]* //' | cut -c1-300 | head -4)
+  [ -n "$viol" ] && echo "$viol"
+  { echo "$(date -u +%FT%TZ) repo=$(git -C /repo rev-parse --short HEAD) $line"; [ -n "$viol" ] && echo "$viol" | sed 's/^/    /'; } >> "$OUT"
 done
